@@ -126,6 +126,17 @@ func RunC09(seed int64, tier, outDir string) (*emit.Summary, error) {
 		}
 		rc.observe("typed "+tag, "typed", obj, true)
 	}
+	// Pods with several containers in assorted waiting/running/terminated
+	// states (the crash-loop scan walks the whole list; its message names every
+	// crash-looping container in list order)
+	nPods := 150
+	if tier == "thorough" {
+		nPods = 3000
+	}
+	for i := 0; i < nPods; i++ {
+		obj, tag := genMultiContainerPod(r)
+		rc.observe("pod "+tag, "pod-containers", obj, true)
+	}
 	if err := rc.sh.write(outDir, sum); err != nil {
 		return nil, err
 	}
@@ -152,14 +163,55 @@ func RunC09(seed int64, tier, outDir string) (*emit.Summary, error) {
 	rc.sh.nontr = append(rc.sh.nontr, psh.nontr...)
 	sum.Evaluations = len(rc.sh.terms)
 	sum.DistinctNontrivial = emit.Distinct(rc.sh.terms, rc.sh.nontr)
-	sum.Rule = "every case is status.Compute on one object under recover(), input deep-copied before and compared after, called twice; " +
+	sum.Rule = "every case is status.Compute on one object under recover(), input deep-copied before and compared after, called six times with all results compared; " +
 		"non-trivial = all (each case is a distinct object reaching the status rules); distinct = distinct Coq case terms. " +
 		"Streams: former panic witnesses; one well-typed base per branch family of every kind; systematic malformed stream = every node of every base " +
-		"replaced by every other JSON type/value of a fixed list and every key removed; seeded random multi-replacements; seeded well-typed C07/C08 points"
+		"replaced by every other JSON type/value of a fixed list and every key removed; seeded random multi-replacements; seeded well-typed C07/C08 points; Running not-Ready Pods with 2-6 containers in mixed states"
 	sum.Extra["systematic_malformed_cases"] = nSys
 	sum.Extra["bases"] = len(bases)
 	mid := rc.sh.files[0].Text
 	sum.Samples = []any{mid[0], mid[len(mid)/2], rc.sh.files[len(rc.sh.files)-1].Text[0]}
 	_ = fmt.Sprint
 	return sum, nil
+}
+
+// genMultiContainerPod: a Running Pod that is not Ready with 2..6 container
+// statuses, most of them waiting in CrashLoopBackOff, the rest running,
+// terminated, waiting for another reason or without state.
+func genMultiContainerPod(r *rand.Rand) (map[string]interface{}, string) {
+	names := []string{"app", "proxy", "metrics", "sync", "init-db", "log"}
+	r.Shuffle(len(names), func(i, j int) { names[i], names[j] = names[j], names[i] })
+	n := 2 + r.Intn(5)
+	var css []interface{}
+	tag := ""
+	for k := 0; k < n; k++ {
+		st := map[string]interface{}{}
+		switch r.Intn(8) {
+		case 0:
+			st["running"] = map[string]interface{}{"startedAt": "t"}
+			tag += " run"
+		case 1:
+			st["terminated"] = map[string]interface{}{"reason": "Error"}
+			tag += " term"
+		case 2:
+			st["waiting"] = map[string]interface{}{"reason": "ContainerCreating"}
+			tag += " creating"
+		case 3:
+			tag += " empty"
+		default:
+			st["waiting"] = map[string]interface{}{"reason": "CrashLoopBackOff"}
+			tag += " crash"
+		}
+		css = append(css, map[string]interface{}{"name": names[k], "state": st})
+	}
+	obj := map[string]interface{}{
+		"apiVersion": "v1", "kind": "Pod",
+		"metadata": map[string]interface{}{"name": "p", "namespace": "ns", "generation": int64(1)},
+		"status": map[string]interface{}{"phase": "Running", "containerStatuses": css},
+	}
+	if r.Intn(3) == 0 {
+		addConds(obj, []interface{}{cond("Ready", "False", "ContainersNotReady")})
+		tag += " Ready=False"
+	}
+	return obj, "multi-container" + tag
 }
